@@ -128,6 +128,16 @@ func genC17(r *rngT, n int, tier string) {
 			if id > 0 {
 				probe[id-1] = true
 			}
+			// ids that share the low bits of a present id (a table keyed by part of the id would alias them)
+			if tier != "thorough" && id%5 != 0 {
+				continue
+			}
+			for _, d := range []uint32{1 << 8, 1 << 16, 2 << 16, 255 << 16, 1 << 23, 1 << 24, 1 << 31} {
+				probe[id+d] = true
+				probe[id^d] = true
+			}
+			probe[id&0xFFFF] = true
+			probe[id&0xFF] = true
 		}
 		rnd := 50
 		if tier == "thorough" {
@@ -144,7 +154,7 @@ func genC17(r *rngT, n int, tier string) {
 				stat("c17-absent")
 			}
 		}
-		if dn != "user" && !strings.HasPrefix(dn, "fw") {
+		if !strings.HasPrefix(dn, "user") && !strings.HasPrefix(dn, "fw") {
 			for id := range ids {
 				execOp(fmt.Sprintf("dtype %s %d", dn, id))
 			}
